@@ -10,7 +10,7 @@ git apply "$patch" || { echo "patch does not apply"; exit 2; }
 rm -rf /dev/shm/mutant-found
 for id in "$@"; do
   echo "=== $id with $name"
-  ( cd /verif && VERIF_FOUND_DIR=/dev/shm/mutant-found ./run.sh $id quick > /dev/shm/mutant-run.log 2>&1; echo "exit=$?"; tail -4 /dev/shm/mutant-run.log | cut -c1-400 )
+  ( cd /verif && VERIF_EVIDENCE_DIR=/dev/shm/mutant-evidence VERIF_FOUND_DIR=/dev/shm/mutant-found ./run.sh $id quick > /dev/shm/mutant-run.log 2>&1; echo "exit=$?"; tail -4 /dev/shm/mutant-run.log | cut -c1-400 )
 done
 git -C /repo checkout -- .
 cd /verif/harness && cargo build --release --offline >/dev/null 2>&1
